@@ -5,6 +5,7 @@ INVARIANT TypeOK
 INVARIANT LengthsAndChecksumsOK
 INVARIANT ChecksumDefsAgree
 INVARIANT ParseRecovers
+INVARIANT StructuredOptionsOK
 INVARIANT ReserialiseSame
 PROPERTY ObservationsOK
 INVARIANT Export
